@@ -1632,6 +1632,23 @@ func (alphHarness) Gen(seed uint64, prop, tier string) *simkit.Program {
 		add("blk", 1, 0, 0, 0)
 		add("reobs", -1, 0, 0, 0)
 	}
+	if prop == "C08" && r.P(0.25) {
+		// re-observation requests inside the last second of the confirmation time of a block whose
+		// timestamp has a millisecond part (block timestamps are milliseconds), and right after it
+		l := int64(r.Range(1, 6))
+		add("adv", int64(r.Range(1, 999)), 0, 0, 0)
+		add("ev", 0, l, int64(r.Intn(48))*4, 0)
+		add("blk", l+int64(r.Intn(3)), 0, 0, 0)
+		dur := l * 16 * sec
+		if mainnet {
+			dur = 205 * 16 * sec
+		}
+		delta := int64(r.Range(1, 999))
+		add("adv", dur-delta, 0, 0, 0)
+		add("reobs", -1, 0, 0, 0)
+		add("adv", delta, 0, 0, 0)
+		add("reobs", -1, 0, 0, 0)
+	}
 	if prop == "C08" {
 		// let pending messages mature, re-observe some again afterwards
 		add("blk", int64(r.Range(5, 45)), 0, 0, 0)
